@@ -231,6 +231,14 @@ impl Token {
         }
     }
 
+    /// Returns the content of the token if it does not refer to the original code.
+    pub(crate) fn try_read(&self) -> Option<&str> {
+        match &self.position {
+            Position::LineNumberReference { .. } => None,
+            Position::LineNumber { content, .. } | Position::Any { content } => Some(content),
+        }
+    }
+
     /// Returns the line number of the token, if available.
     pub fn get_line_number(&self) -> Option<usize> {
         match &self.position {
